@@ -322,6 +322,21 @@ def check_table(case):
                       [((0 if (type(x) in (int, float) and x == 1) else 1), (0 if (type(y) in (int, float) and y == 2) else 1 if (type(y) in (int, float) and y == 1) else 2))
                        for x, y in zip(a, b)]))
 
+    # ---- a sorted table whose key column is then overwritten in place and sorted again: the second sort sees the table as it is now
+    if n >= 2 and case['t'] != 'obj':
+        out.sub()
+        try:
+            t1 = build().sort('a')
+            newa = list(t1['a'])[::-1]
+            t1['a'] = list(newa)
+            ids1 = list(t1['id'])
+            t2 = t1.sort('a')
+            out.call(2)
+            want2 = [ids1[i] for i in _stable_order([(x,) for x in newa])]
+            if list(t2['id']) != want2:
+                out.viol('table-sort-wrong-order', "d.sort('a'), then a overwritten with %s, then sort('a') again: ids %s, expected %s" % (show(newa), list(t2['id']), want2), spelling='sort-edit-sort')
+        except Exception as e:
+            out.viol('table-sort-raises', "sort('a') / overwrite a / sort('a') on a=%s raised %s: %s" % (show(a), type(e).__name__, e), spelling='sort-edit-sort')
     for name, f, keys in spellings:
         out.sub()
         d = build()
